@@ -1,0 +1,38 @@
+//go:build verif
+
+// Copyright Istio Authors
+//
+// Licensed under the Apache License, Version 2.0 (the "License");
+// you may not use this file except in compliance with the License.
+// You may obtain a copy of the License at
+//
+//     http://www.apache.org/licenses/LICENSE-2.0
+//
+// Unless required by applicable law or agreed to in writing, software
+// distributed under the License is distributed on an "AS IS" BASIS,
+// WITHOUT WARRANTIES OR CONDITIONS OF ANY KIND, either express or implied.
+// See the License for the specific language governing permissions and
+// limitations under the License.
+
+package model
+
+// Accessors for the deterministic-simulation harness (only built with the "verif" tag).
+
+// VerifResetGlobals re-creates the package-level channels of the JWKS resolver so that they
+// belong to the calling goroutine's synctest bubble.
+func VerifResetGlobals() {
+	closeChan = make(chan bool)
+	jwksuriChannel = make(chan jwtKey, 5)
+}
+
+// VerifFlushCache runs the periodic index flush of every typed cache once.
+func VerifFlushCache(c XdsCache) {
+	x, ok := c.(XdsCacheImpl)
+	if !ok {
+		return
+	}
+	x.cds.Flush()
+	x.eds.Flush()
+	x.rds.Flush()
+	x.sds.Flush()
+}
